@@ -22,7 +22,10 @@ var leafTypes = []string{"int32", "int64", "float32", "float64", "bool", "string
 func shapes(thorough bool) []*prog.Shape {
 	depth, leaves, rots := 2, 2, 1
 	if thorough {
-		depth, leaves, rots = 3, 3, 2
+		// (depth 3, 2 leaves) below, plus (depth 2, 3 leaves) appended after it:
+		// depth 3 with 3 leaves is 74 306 shapes, more than the budget can
+		// generate, compile and run
+		depth, leaves, rots = 3, 2, 2
 	}
 	var out []*prog.Shape
 	seen := map[string]bool{}
@@ -33,7 +36,11 @@ func shapes(thorough bool) []*prog.Shape {
 			out = append(out, s)
 		}
 	}
-	for _, s := range prog.Enumerate(depth, leaves, 3) {
+	base := prog.Enumerate(depth, leaves, 3)
+	if thorough {
+		base = append(base, prog.Enumerate(2, 3, 3)...)
+	}
+	for _, s := range base {
 		if hasRepeated(s.Fields) {
 			continue
 		}
@@ -323,7 +330,7 @@ func run(c *fw.Ctx) {
 	}
 	ss := shapes(c.Thorough())
 	c.Bound("programs", len(ss))
-	c.Bound("grammar", "no repeated fields; leaves {int32,int64,float32,float64,bool,string} x {required, optional}; groups {required, optional} with unique names, leaf names unique per file and (for every shape with a group and >= 2 leaves) reused across parents with different types / borrowed from a group elsewhere; <=3 fields per struct; quick depth<=2 & <=2 leaves, thorough depth<=3 & <=3 leaves; leaf types rotate by position (1 / 2 rotations) plus every type in every single-leaf context")
+	c.Bound("grammar", "no repeated fields; leaves {int32,int64,float32,float64,bool,string} x {required, optional}; groups {required, optional} with unique names, leaf names unique per file and (for every shape with a group and >= 2 leaves) reused across parents with different types / borrowed from a group elsewhere; <=3 fields per struct; quick depth<=2 & <=2 leaves, thorough (depth<=3 & <=2 leaves) + (depth<=2 & <=3 leaves); leaf types rotate by position (1 / 2 rotations) plus every type in every single-leaf context")
 	const per = 90
 	nb := (len(ss) + per - 1) / per
 	for b := 0; b < nb; b++ {
